@@ -9,7 +9,10 @@
 //
 // Oracle (in scheduler steps, never wall-clock):
 //
-//	O1 after the cancel every task finishes within B further steps;
+//	O1 after the cancel every task finishes within B further steps, B = (60 + 16*defer
+//	   statements + 10*depth) per live task + 10 per step taken before the cancel
+//	   (each step may have registered one deferred call that must still be run and
+//	   interrupted); a spinning script exceeds any bound;
 //	O2 if the main task observed the cancellation, RunContext's error message
 //	   is exactly "execution interrupted";
 //	O3 after a task first observed the cancellation it performs no further
@@ -474,7 +477,10 @@ func (Prop) Run(t *testing.T, c *harness.Case, verbose bool) *harness.Result {
 			if ntasks < 1 {
 				ntasks = 1
 			}
-			bound = (60 + 16*ndef + 10*depth) * ntasks
+			// every deferred call registered before the cancel must still run (and be
+			// interrupted at its first poll): at most one registration per step so far,
+			// at most ~10 steps each. A script that ignores the cancel exceeds any bound.
+			bound = (60+16*ndef+10*depth)*ntasks + 10*s.Step
 			s.MaxSteps = s.Step + bound
 			ctx.Cancel()
 			cancelAt = ctx.CancelAt
